@@ -1,0 +1,51 @@
+//! Verification hooks (only compiled with `--cfg futures_buffered_verif`).
+//!
+//! Plain function-pointer slots a harness can install. They use `core` atomics on purpose (never
+//! loom's): they add no scheduling points and no synchronisation to the code under test.
+
+use core::sync::atomic::{AtomicUsize, Ordering};
+
+/// `fn(base, size)`: a waker block was allocated.
+pub type AllocFn = fn(*mut u8, usize);
+/// `fn(base, size, align) -> bool`: a waker block is being released; `true` = the harness takes
+/// over the memory (deferred free), `false` = free it now.
+pub type ReleaseFn = fn(*mut u8, usize, usize) -> bool;
+/// `fn(kind, item, header)`: entry of a child-waker vtable function
+/// (0 clone, 1 wake, 2 wake_by_ref, 3 drop) with the item pointer and the header it resolves to.
+pub type VtableFn = fn(u8, *const (), *const ());
+
+static ALLOC: AtomicUsize = AtomicUsize::new(0);
+static RELEASE: AtomicUsize = AtomicUsize::new(0);
+static VTABLE: AtomicUsize = AtomicUsize::new(0);
+
+pub fn install(alloc: AllocFn, release: ReleaseFn, vtable: VtableFn) {
+    ALLOC.store(alloc as usize, Ordering::SeqCst);
+    RELEASE.store(release as usize, Ordering::SeqCst);
+    VTABLE.store(vtable as usize, Ordering::SeqCst);
+}
+
+pub(crate) fn block_alloc(p: *mut u8, size: usize) {
+    let f = ALLOC.load(Ordering::Relaxed);
+    if f != 0 {
+        let f: AllocFn = unsafe { core::mem::transmute(f) };
+        f(p, size)
+    }
+}
+
+pub(crate) fn block_release(p: *mut u8, size: usize, align: usize) -> bool {
+    let f = RELEASE.load(Ordering::Relaxed);
+    if f != 0 {
+        let f: ReleaseFn = unsafe { core::mem::transmute(f) };
+        f(p, size, align)
+    } else {
+        false
+    }
+}
+
+pub(crate) fn vtable_entry(kind: u8, item: *const (), header: *const ()) {
+    let f = VTABLE.load(Ordering::Relaxed);
+    if f != 0 {
+        let f: VtableFn = unsafe { core::mem::transmute(f) };
+        f(kind, item, header)
+    }
+}
